@@ -2011,6 +2011,12 @@ def cat(tensors, dim=0):
 
 
 def stack(tensors, dim=0):
+    if getattr(tensors, 'pfv_stack', False):
+        # a list of symbolic length havocked by a cut loop (cutloops.SymStack): rows 0..L-1 are one tensor already
+        if dim != 0:
+            raise Unsupported('stack of a list of symbolic length along dim %r' % (dim,))
+        phys = list(tensors)
+        return cat([phys[0]] + [t.unsqueeze(0) for t in phys[1:]], dim=0)
     tensors = list(tensors)
     d = tensors[0]._dim(dim, extra=1)
     return cat([t.unsqueeze(d) for t in tensors], dim=d)
